@@ -2,7 +2,7 @@
 //! conversions, extraction of a finished graph into plain strings ("view") through the
 //! crate's public query API, and the graph oracles that compare a view with the reference.
 use debruijn::graph::DebruijnGraph;
-use debruijn::{Dir, Exts, Kmer, Mer};
+use debruijn::{Dir, Exts, Kmer, Mer, Vmer};
 use std::collections::{BTreeMap, BTreeSet};
 use std::fmt::Debug;
 use vcommon::refmodel::*;
@@ -47,6 +47,8 @@ pub type EdgeV = (usize, Side, bool);
 #[derive(Clone, Debug)]
 pub struct NodeV<D> {
     pub seq: S,
+    /// the node's k-mers as the k-mer iterator of its sequence slice yields them
+    pub kmer_iter: Vec<S>,
     pub l: Bases,
     pub r: Bases,
     pub data: D,
@@ -84,8 +86,10 @@ pub fn view<K: Kmer, D: Debug + Clone>(g: &DebruijnGraph<K, D>) -> GraphV<D> {
         let cv = |v: debruijn::graph::Node<K, D>, d: Dir| -> Vec<EdgeV> {
             v.edges(d).into_iter().map(|(t, s, f)| (t, side_of(s), f)).collect()
         };
+        let kmer_iter: Vec<S> = n.sequence().iter_kmers::<K>().map(|x| kstr(&x)).collect();
         nodes.push(NodeV {
             seq,
+            kmer_iter,
             l,
             r,
             data: n.data().clone(),
